@@ -348,7 +348,9 @@ func (f *File) Descriptor() *descriptorpb.FileDescriptorProto {
 // ---------------------------------------------------------------------------------------------
 // the feature matrix
 
-var fieldNumbers = []int32{1, 15, 16, 2047, 2048, 1 << 21, 1 << 26, 1<<29 - 1}
+// boundary field numbers, spread over the kinds of the all-kinds messages: every change of the key's encoded
+// size (15|16, 2047|2048, 2^18-1|2^18, 2^25-1|2^25) and the largest field number
+var fieldNumbers = []int32{1, 15, 16, 2047, 2048, 1<<18 - 1, 1 << 18, 1<<25 - 1, 1 << 25, 1 << 21, 1 << 26, 1<<29 - 1}
 
 func allKindsMessage(name string, card Card, proto2 bool, withMsg string) *Message {
 	m := &Message{Name: name}
@@ -431,7 +433,11 @@ func Matrix() []*File {
 					Extends: []Ext{
 						{Extendee: "Base", Field: Field{Name: "leaf_ext", Num: 100, Kind: KMessage, Card: Optional, Msg: "Leaf"}},
 						{Extendee: "Base", Field: Field{Name: "self_ext", Num: 2047, Kind: KMessage, Card: Optional, Msg: "Base"}},
-					}})
+						// a second extended message whose extensions reuse the same numbers
+						{Extendee: "Base2", Field: Field{Name: "leaf_ext2", Num: 100, Kind: KMessage, Card: Optional, Msg: "Leaf"}},
+						{Extendee: "Base2", Field: Field{Name: "level2", Num: 2047, Kind: KInt32, Card: Optional}},
+					}},
+				&Message{Name: "Base2", ExtRange: true, Fields: []Field{{Name: "id", Num: 1, Kind: KString, Card: Optional}}})
 			files = append(files, ex)
 			// scalar extensions (kinds whose generated code compiles)
 			xs := &File{Base: "p2extscalar", Proto2: true, Enum: true}
